@@ -62,7 +62,7 @@ func r15_2(c *Ctx, rule string) {
 	n := 0
 	for _, cl := range c.P.CallsTo(fn, "os.Lstat", "os.Stat") {
 		if v, ok := cl.(*ssa.Call); ok {
-			as["("+v.Name()+"#1==nil)"] = true
+			as["("+c.reg(v)+"#1==nil)"] = true
 			n++
 		}
 	}
@@ -82,6 +82,7 @@ func r13_1(c *Ctx, rule string) {
 		return
 	}
 	cp := f.copy
+	defer c.scope(cp)()
 	base := c.name(cp)
 	isCreator := c.callPred(allCreators...)
 	for _, call := range c.P.CallsTo(cp, "copy.(*copier).copyFileInfo", "copy.copyXAttrs") {
@@ -104,9 +105,9 @@ func r13_1(c *Ctx, rule string) {
 	}
 	c.R.Floor(rule, "non-directory creation sites in copier.copy", n, 4)
 	// directory created
-	as := map[string]bool{f.cdCall.Name() + "#0": true, "(" + f.cdCall.Name() + "#1==nil)": true}
+	as := map[string]bool{c.reg(f.cdCall) + "#0": true, "(" + c.reg(f.cdCall) + "#1==nil)": true}
 	// created=true is only possible for a selected directory (R16.1)
-	sel := map[string]bool{f.inc.Name() + "#0": true, f.exc.Name() + "#0": false}
+	sel := map[string]bool{c.reg(f.inc) + "#0": true, c.reg(f.exc) + "#0": false}
 	c.ObSuccessAfter(rule, c.siteName(f.cdCall)+"/created-then-fileinfo", cp, f.cdCall, sel, as, cfi, "a checked copyFileInfo for a directory that was created")
 	c.ObSuccessAfter(rule, c.siteName(f.cdCall)+"/created-then-xattrs", cp, f.cdCall, sel, as, cxa, "a checked copyXAttrs for a directory that was created")
 	// order
@@ -193,12 +194,12 @@ func r13_2(c *Ctx, rule string) {
 	// mode provenance
 	for _, call := range c.P.CallsTo(fn, "os.Chmod") {
 		a := call.Common().Args
-		srcMode := c.DerivesFrom(a[1], func(v ssa.Value) bool { return c.isCallValueTo(v, "(io/fs.FileInfo).Mode") }, 4)
+		srcMode := c.DerivesFrom(a[1], func(v ssa.Value) bool { return c.isCallValueTo(v, "(io/fs.FileInfo).Mode") }, 10)
 		set := c.DerivesFrom(a[1], func(v ssa.Value) bool {
 			call, ok := v.(*ssa.Call)
 			return ok && strings.HasSuffix(c.P.CalleeName(call), "dchapes-mode.Set).Apply")
-		}, 4)
-		oct := c.DerivesFrom(a[1], func(v ssa.Value) bool { return isFieldLoad(v, "copy.copier.mode") }, 6)
+		}, 10)
+		oct := c.DerivesFrom(a[1], func(v ssa.Value) bool { return isFieldLoad(v, "copy.copier.mode") }, 12)
 		pn, isP := eng.Strip(a[0]).(*ssa.Parameter)
 		c.R.Check(srcMode && set && oct && isP && pn.Name() == "name", rule, c.siteName(call)+"/mode", c.pos(call), "mode is the source mode, the symbolic set applied to it, or the octal option", "the mode applied does not derive from {source mode, symbolic set, octal option}")
 	}
@@ -437,7 +438,7 @@ func r13_4(c *Ctx, rule string) {
 		n++
 		_, valP := eng.Strip(mu.Value).(*ssa.Parameter)
 		c.R.Check(valP && mu.Key == look.Index, rule, fmt.Sprintf("%s/record#%d", c.name(g), n), c.pos(mu), "records inode -> this name", "getLinkSource records something other than inode -> the given name")
-		c.ObUnreachable(rule, fmt.Sprintf("%s/record#%d/first-only", c.name(g), n), g, map[string]bool{look.Name() + "#1": true}, func(i2 ssa.Instruction) bool { return i2 == in }, "re-recording the inode", "the inode is already recorded")
+		c.ObUnreachable(rule, fmt.Sprintf("%s/record#%d/first-only", c.name(g), n), g, map[string]bool{c.reg(look) + "#1": true}, func(i2 ssa.Instruction) bool { return i2 == in }, "re-recording the inode", "the inode is already recorded")
 	})
 	c.R.Floor(rule, "recordings in getLinkSource", n, 1)
 	// returns the recorded path
@@ -734,7 +735,7 @@ func r14_1(c *Ctx, rule string) {
 			c.R.OK(rule, con, c.pos(call), name+" does not follow a symlink in the final component")
 			continue
 		}
-		ex, ok := copyFollowExceptions[c.name(call.Parent())+"/"+name]
+		ex, ok := tabled(c, copyFollowExceptions, call)
 		if !ok {
 			// wildcard resolution and the public helpers operate on caller-resolved paths
 			c.R.Fail(rule, con, c.pos(call), name+" follows a symlink in the final path component, in "+c.name(call.Parent())+": a symlink in the source or destination tree redirects the operation outside its root")
@@ -900,7 +901,7 @@ func r15_1(c *Ctx, rule string) {
 			}
 			for _, cl := range c.P.CallsTo(fn, "os.Lstat") {
 				if v, ok := cl.(*ssa.Call); ok {
-					as["("+v.Name()+"#1==nil)"] = true
+					as["("+c.reg(v)+"#1==nil)"] = true
 				}
 			}
 			if len(as) < 2 {
@@ -967,7 +968,7 @@ func r15_1(c *Ctx, rule string) {
 		}
 		for _, cl := range c.P.CallsTo(cdo, "os.Lstat") {
 			if v, ok := cl.(*ssa.Call); ok {
-				as["("+v.Name()+"#1==nil)"] = true
+				as["("+c.reg(v)+"#1==nil)"] = true
 			}
 		}
 		hit, und := c.SuccessAvoiding(cdo, nil, as, nil, nil)
